@@ -50,6 +50,15 @@ pub fn money_regex_parser(config: &SmartCalcConfig, tokinizer: &mut Tokinizer, g
                 }
             }
 
+            /* Digits and letters in the middle of a hexadecimal literal ('0x2bbd70', '0xF0A7CDF8') belong to that number */
+            if currency.chars().all(|ch| ch.is_ascii_hexdigit()) {
+                let before = &tokinizer.data[..capture.get(0).unwrap().start()];
+                let prefix = before.trim_end_matches(|ch: char| ch.is_ascii_hexdigit());
+                if prefix.ends_with("0x") || prefix.ends_with("0X") {
+                    continue;
+                }
+            }
+
             let currency = match read_currency(config, currency) {
                 Some(real_currency) => real_currency,
                 _ => continue
